@@ -279,10 +279,13 @@ for comments in (False, True):
                 m_ = _re.search(r"\(\?P<name>(.*?)\)\[", text)
                 if not m_:
                     return z3.BoolVal(False)
-                alts = set(m_.group(1).strip("()").split("|"))
-                return z3.BoolVal("#" in alts and "\\w+" in alts)
+                alts = m_.group(1).strip("()").split("|")
+                # ... and a marker made of letters ("{c" -> c) must not split a word: regex alternation is
+                # ordered, so the word alternative has to be tried before the marker
+                ordered = "\0" not in alts or ("\\w+" in alts and alts.index("\\w+") < alts.index("\0"))
+                return z3.BoolVal("#" in alts and "\\w+" in alts and ordered)
             return z3.BoolVal(False)
-        c.ensures("a-liquid-tag-line-may-start-with-#-or-a-word-whatever-the-comment-delimiters", post3)
+        c.ensures("a-liquid-tag-line-may-start-with-#-or-a-whole-word-whatever-the-comment-delimiters", post3)
         c.assume_note("str.replace is uninterpreted here; the marker is comment_start_string with every '{' removed, by design (the property's mechanism list)")
         c.replay("code", code=REPLAY_RULES)
 
